@@ -24,6 +24,7 @@ def all_obligations():
     recs, lines = ph.spec_obligations_main(g, m, outs)
     g2, m2, outs2 = ph.run_leaf_loop(ast)
     recs2 = ph.spec_obligations_leaf(g2, m2, outs2)
+    recs2 = recs2 + ph.run_lambdas(ast)
     return recs + recs2, dict(main_paths=len(outs), leaf_paths=len(outs2), push_lines=sorted(lines))
 
 
